@@ -71,7 +71,8 @@ def snapshot(cx, v):
     if isinstance(v, list):
         return ON("list", [OZ(cx.table.get(id(v), 0))] + [snapshot(cx, x) for x in v])
     if isinstance(v, dict):
-        return ON("dict", [OZ(cx.table.get(id(v), 0))] + [ON("kv", [OS(k), snapshot(cx, x)]) for k, x in v.items()])
+        return ON("dict", [OZ(cx.table.get(id(v), 0))] + [ON("kv", [OS(k) if isinstance(k, str) else ON("badkey", [OS(repr(k))]), snapshot(cx, x)])
+                                                           for k, x in v.items()])
     return lval(cx, v)
 
 
@@ -1367,6 +1368,102 @@ def run_fcase(case):
             return ON("f", [OS("results:%d,%d" % (c1, c2))])
         except Exception as e:  # noqa
             return ON("f", [OS(type(e).__name__)])
+    if k == 'REUSE':
+        # one path object evaluated very many times (get / get_match leave their iterator unfinished; some iterators
+        # are advanced once and abandoned): every evaluation yields what a fresh path object yields (C07-m11: a counter
+        # kept on the recursive vertex that unfinished evaluations never give back)
+        import random as _random
+        rng = _random.Random(case['seed'])
+        depth = rng.randint(2, 7)
+
+        def nested(leaf):
+            d = {"leaf": leaf, "x": [leaf]}
+            for i in range(depth):
+                d = {"k": d, "n": i} if rng.random() < 0.7 else [d, i]
+            return d
+        docs = [nested(n) for n in range(3)]
+        mk = rng.choice([lambda: path.rec.leaf, lambda: path.rec[has(path.leaf)].leaf, lambda: path.rec.x[0],
+                         lambda: path.rec.x[wc], lambda: path[gwc].rec.leaf, lambda: path.rec.rec.leaf])
+        shared = mk()
+
+        def outcome(thunk):
+            try:
+                return ('ok', thunk())
+            except Exception as x:  # noqa
+                return ('raise', type(x).__name__)
+        alone = [outcome(lambda d=d: list(find(mk(), d))) for d in docs]
+        for rnd in range(case.get('n', 400)):
+            for i, d in enumerate(docs):
+                mode = (rnd + i) % 4
+                if mode == 0:
+                    got = outcome(lambda: [get(shared, d)])
+                    want = ('ok', alone[i][1][:1]) if alone[i][0] == 'ok' and alone[i][1] else None
+                elif mode == 1:
+                    got = outcome(lambda: [get_match(shared, d).data])
+                    want = ('ok', alone[i][1][:1]) if alone[i][0] == 'ok' and alone[i][1] else None
+                elif mode == 2:
+                    got = outcome(lambda: [next(find(shared, d))])
+                    want = ('ok', alone[i][1][:1]) if alone[i][0] == 'ok' and alone[i][1] else None
+                else:
+                    got = outcome(lambda: list(find(shared, d)))
+                    want = alone[i]
+                if want is not None and got != want:
+                    return ON("f", [OS("evaluation %d of one path object on document %d gave %r, a fresh path object gives %r"
+                                       % (rnd, i, got, want))])
+        return ON("f", [OS("ok:%d" % depth)])
+    if k == 'TWOHOP':
+        # a custom predicate that searches on from the Match its first get_match returned (two hops): tracing changes
+        # nothing, and every event produced while the filter is evaluated carries the candidate under test (C17-m14)
+        import random as _random
+        rng = _random.Random(case['seed'])
+        items = []
+        for i in range(rng.randint(2, 5)):
+            it = {'id': i, 'v': rng.choice(['x', 0, None, 'y'])}
+            if rng.random() < 0.75:
+                meta = {}
+                if rng.random() < 0.6:
+                    meta['ok'] = rng.choice([True, None, 0, [], 'x'])
+                if rng.random() < 0.6:
+                    meta['tags'] = [rng.choice(['a', 0, None]) for _ in range(rng.randint(0, 2))]
+                it['meta'] = meta if rng.random() < 0.9 else rng.choice([None, 0, [meta]])
+            items.append(it)
+        as_list = rng.random() < 0.5
+        doc = {'items': items if as_list else {('k%d' % i): it for i, it in enumerate(items)}}
+        candidates = items
+        hop2 = rng.choice([path.ok, path.tags[0], path.tags[wc], path[has(path.ok)].tags, path.rec[0]])
+        must1 = rng.random() < 0.2
+
+        def approved(m):
+            meta = get_match(path.meta, m, must_match=must1)
+            if meta is None:
+                return False
+            return get_match(hop2, meta, must_match=False) is not None
+        w = rng.choice(['plain', 'has', 'all1', 'all2', 'any', 'not'])
+        pred = {'plain': approved, 'has': has(approved), 'all1': has_all(approved, path.v), 'all2': has_all(path.id, approved),
+                'any': has_any(path.nope, approved), 'not': has_not(approved)}[w]
+        base = path.items[wc] if rng.random() < 0.7 else path.items.wc
+        e = base[pred]
+        if rng.random() < 0.5:
+            e = e.v
+
+        def run(tr):
+            out = []
+            try:
+                for m in (find_matches(e, doc, trace=tr) if tr else find_matches(e, doc)):
+                    out.append(('r', m.path_as_str, id(m.data) if isinstance(m.data, (dict, list)) else repr(m.data)))
+            except Exception as x:  # noqa
+                out.append(('x', type(x).__name__, type(x.__cause__).__name__))
+            return out
+        events = []
+        a = run(None)
+        b = run(events.append)
+        if a != b:
+            return ON("f", [OS("tracing changed the outcome: %r vs %r" % (a, b))])
+        for ev in events:
+            pm = ev.predicate_match
+            if pm is not None and not any(pm.data is c for c in candidates):
+                return ON("f", [OS("a filter event carries %s as predicate_match, not a candidate of the filter" % pm.path_as_str)])
+        return ON("f", [OS("ok:%d" % len([1 for ev in events if ev.predicate_match is not None]))])
     if k == 'F1':
         # the budget of a next() is spent on any long stretch without a result, not only on cycles
         n = case.get('n', 400000)
